@@ -80,8 +80,31 @@ def opt_local(ctx, lexpr, pt):
                 cls.add(ord(spec))
         allowed[fld] = cls
     # option reads elsewhere in the crate's parser (outside parse_token) break locality outright
+    # helpers parse_token is split into: loop-free functions every call of which comes from parse_token (or another
+    # such helper); the abstract evaluation below looks through them, so their option reads are covered by it
+    light = lex.light_fns(lexpr)
+    callers = {}
     for fn in lexpr.fns:
-        if fn.path == pt.path or not common.in_file(fn, "lexpr/src/parse/mod.rs", "lexpr/src/parse/read.rs"):
+        for _bi, t in fn.calls():
+            c = t["callee"]
+            tg = c.get("resolved") or c.get("path")
+            if tg:
+                callers.setdefault(tg, set()).add(fn.owner if fn.kind == "closure" else fn.path)
+    part = {pt.path}
+    grew = True
+    while grew:
+        grew = False
+        for fn in lexpr.fns:
+            if fn.path in part or fn.path not in light or fn.is_pub:
+                continue
+            cs = callers.get(fn.path, set())
+            if cs and cs <= part:
+                part.add(fn.path)
+                grew = True
+    if len(part) > 1:
+        r.note("parse_token is split into helpers (covered by the evaluation): %s" % sorted(x.rsplit("::", 1)[1] for x in part - {pt.path}))
+    for fn in lexpr.fns:
+        if fn.path in part or not common.in_file(fn, "lexpr/src/parse/mod.rs", "lexpr/src/parse/read.rs"):
             continue
         if (fn.self_ty or "").startswith("parse::Options") or fn.path.startswith("parse::Options"):
             continue
@@ -104,7 +127,7 @@ def opt_local(ctx, lexpr, pt):
                     seen.add(f)
             return None
 
-        S = sim.Sim([lexpr], hooks={"call": _unknown_reader, "opaque": opaque}, inline=lambda a, b: b.path in INL,
+        S = sim.Sim([lexpr], hooks={"call": _unknown_reader, "opaque": opaque}, inline=lex.helper_inline(lexpr, INL),
                     max_paths=20000, max_depth=4)
         try:
             S.run(pt, args={2: d})
@@ -174,7 +197,7 @@ def _token_kinds(lexpr, pt, seq, optvals):
                 path.events.append(("uses", key))
         return None
 
-    S = sim.Sim([lexpr], hooks={"call": hook, "opaque": opaque}, inline=lambda a, b: b.path in INL,
+    S = sim.Sim([lexpr], hooks={"call": hook, "opaque": opaque}, inline=lex.helper_inline(lexpr, INL),
                 max_paths=20000, max_depth=4)
     kinds = set()
     uses = set()
@@ -360,7 +383,7 @@ def opt_decision(ctx, lexpr, pt):
                         return None
 
                     unmodelled = []
-                    S = sim.Sim([lexpr], hooks={"call": hook, "opaque": opaque}, inline=lambda a, b: b.path in INL,
+                    S = sim.Sim([lexpr], hooks={"call": hook, "opaque": opaque}, inline=lex.helper_inline(lexpr, INL),
                                 max_paths=4000, max_depth=4)
                     got = set()
                     try:
@@ -478,7 +501,7 @@ def quote_table(ctx, lexpr, pt):
     want = {(0x27,): b"quote", (0x60,): b"quasiquote", (0x2C, 0x61): b"unquote", (0x2C, 0x40): b"unquote-splicing"}
     tok = lexpr.variant_names("parse::Token")
     for seq, name in sorted(want.items()):
-        S = sim.Sim([lexpr], hooks={"call": lex.seq_hook(list(seq) + [0x61, 0x20])}, inline=lambda a, b: b.path in INL,
+        S = sim.Sim([lexpr], hooks={"call": lex.seq_hook(list(seq) + [0x61, 0x20])}, inline=lex.helper_inline(lexpr, INL),
                     max_paths=5000, max_visits=2)
         got = set()
         for p in S.run(pt, args={2: seq[0]}):
@@ -547,7 +570,7 @@ def num_boundary(ctx, lexpr, pt):
                 return 0
             return None
 
-        S = sim.Sim([lexpr], hooks={"call": hook, "opaque": opaque}, inline=lambda a, b: b.path in INL,
+        S = sim.Sim([lexpr], hooks={"call": hook, "opaque": opaque}, inline=lex.helper_inline(lexpr, INL),
                     max_paths=5000, max_depth=4)
         unchecked = 0
         checked = 0
